@@ -380,10 +380,41 @@ def inline_call(fd, c, hd, serial):
                 tv = _constval(F, cond, {c: v})
                 if tv is not None:
                     thread[r] = b2["succs"][0] if tv else b2["succs"][1]
+    # a predicate `return a || b;` (or &&) whose call is the whole branch condition (possibly negated): the
+    # short-circuit edge decides the branch and is linked to it directly, as in `if (a || b)`
+    short = {}
+    if single_tail and b2.get("cond") is not None and len(b2["succs"]) == 2 and b2.get("termk") != "SwitchStmt":
+        cj = b2["cond"]
+        neg = False
+        while F[cj]["k"] in ("Paren", "ICast", "Cast") or (F[cj]["k"] == "Un" and F[cj].get("op") == "!"):
+            if cj == c:
+                break
+            if F[cj]["k"] == "Un":
+                neg = not neg
+            cj = F[cj]["ch"][0]
+        ej = _strip(F, F[c]["ch"][0]) if cj == c else None
+        if ej is not None and F[ej]["k"] == "Bin" and F[ej].get("op") in ("&&", "||"):
+            jb = [hb for hb in hcfg["blocks"] if (valued[0] - off) in hb["elems"]]
+            if len(jb) == 1:
+                J = jb[0]["id"]
+                for hb in hcfg["blocks"]:
+                    tn = hb.get("term")
+                    if tn is None or tn < 0 or len(hb["succs"]) != 2:
+                        continue
+                    tj = tn + off
+                    if F[tj]["k"] == "Bin" and F[tj].get("op") in ("&&", "||") and tj in set(_walk(F, ej)):
+                        # value of the whole expression on the short-circuit edge
+                        if F[tj]["op"] == "||" and hb["succs"][0] == J and tj == ej:
+                            short[hb["id"]] = (0, b2["succs"][1] if neg else b2["succs"][0])
+                        elif F[tj]["op"] == "&&" and hb["succs"][1] == J and tj == ej:
+                            short[hb["id"]] = (1, b2["succs"][0] if neg else b2["succs"][1])
     for hb in hcfg["blocks"]:
         if hb["id"] == hcfg["exit"]:
             continue
         nb = {"id": bmap[hb["id"]], "elems": [], "succs": [bmap[s] if s is not None else None for s in hb["succs"]]}
+        if hb["id"] in short:
+            k_, tgt_ = short[hb["id"]]
+            nb["succs"][k_] = tgt_
         if len(hb["succs"]) == 1 and hb["succs"][0] == hcfg["exit"] and any(e >= 0 and H[e]["k"] == "Call" and H[e].get("callee") in NORETURN for e in hb["elems"]):
             nb["succs"] = []
         target = None
